@@ -37,7 +37,7 @@ COMMENT_EXCL = '"#\\'
 def doc(ctx, opts):
     """-> (text, expected) ; opts selects the layout family and where the symbolic characters go"""
     o = dict(nsym=2, form='bare', ws=' ', nl='\n', arr='[]', comment=None, cont=None, case=None, interleave=0, blank_lines=False,
-             charlen='8', sub_names=False, value_sym=0)
+             charlen='8', sub_names=False, value_sym=0, names=None, typedef_case=False)
     o.update(opts)
 
     def choice(name, options):
@@ -66,7 +66,14 @@ def doc(ctx, opts):
         ctx.add(z3.And(V[0] != 32, V[0] != 9, V[-1] != 32, V[-1] != 9, V[-1] != 92))
     tname = 'TAB' if not o['sub_names'] else 'AB'
     oname = 'OTHER' if not o['sub_names'] else 'ABC'
+    if o['names']:
+        tname, oname = o['names']
     trow = tname
+    tdef = tname
+    if o['typedef_case']:
+        # the letter case of the name in the typedef itself is a choice of the solver (concrete variants: the
+        # name becomes a dictionary key inside _parse); tables are known by the upper-cased name
+        tdef = choice('tdcase', [tname.upper(), tname.lower(), tname.capitalize(), tname[0].lower() + tname[1:].upper()])
     if o['case'] is not None:
         items = []
         for i, ch in enumerate(tname):
@@ -83,7 +90,7 @@ def doc(ctx, opts):
         head += ['', ' \t ', '   # indented comment']
     enum = ['typedef enum {', '    ALPHA,', '    BETA', '} ETYPE;', '']
     st1 = ['typedef struct {', ' int id;', ' char label%s%s%s;' % (lb, o['charlen'], rb), ' ETYPE e;', ' char tags%s2%s%s4%s;' % (lb, rb, lb, rb),
-           ' float x%s2%s;' % (lb, rb), '} %s;' % tname, '']
+           ' float x%s2%s;' % (lb, rb), S('} ', tdef, ';'), '']
     st2 = ['typedef struct {', ' short n;', ' char w%s%s;' % (lb, rb), '} %s;' % oname, '']
     cont = ''
     if o['cont'] is not None:
@@ -103,9 +110,9 @@ def doc(ctx, opts):
         text = piece if text is None else text + piece
     expected = {
         'pairs': {'name': S('value', V), 'mjd': '54579'},
-        tname: {'id': [1, 2], 'label': [S(L1), 'q r'], 'e': ['ALPHA', 'BETA'], 'tags': [['ab', 'x'], ['', 'yy']], 'x': [[1.5, 2.5], [3.0, 4.0]]},
-        oname: {'n': [5, 6], 'w': ['w1', 'longer']},
-        'order': [tname, oname],
+        tname.upper(): {'id': [1, 2], 'label': [S(L1), 'q r'], 'e': ['ALPHA', 'BETA'], 'tags': [['ab', 'x'], ['', 'yy']], 'x': [[1.5, 2.5], [3.0, 4.0]]},
+        oname.upper(): {'n': [5, 6], 'w': ['w1', 'longer']},
+        'order': [tname.upper(), oname.upper()],
     }
     return text, expected
 
@@ -171,11 +178,16 @@ def obligations(tier, seed):
         ('header-value', dict(form='bare', nsym=0, value_sym=2)),
         ('char[]', dict(form='quoted', nsym=2, charlen='', arr='sym', ws='sym')),
         ('substring-names', dict(form='bare', nsym=1, sub_names=True)),
+        ('substring-names2', dict(form='bare', nsym=1, names=('OBJ', 'OBJ2'))),
+        ('substring-names3', dict(form='quoted', nsym=1, names=('XOBJ', 'OBJ'))),
+        ('name-is-a-column-elsewhere', dict(form='bare', nsym=1, names=('TAB', 'LABEL'))),
+        ('name-is-a-column-elsewhere2', dict(form='quoted', nsym=1, names=('N', 'OTHER'))),
+        ('typedef-case', dict(form='bare', nsym=1, typedef_case=True)),
     ]
     obs = []
     for name, opts in fam:
         obs.append(ob_layout(name, opts, raw=True))
-        if name in ('bare', 'quoted', 'legacy-angle', 'char[]', 'interleave1', 'crlf') or not q:
+        if name in ('bare', 'quoted', 'legacy-angle', 'char[]', 'interleave1', 'crlf', 'substring-names3', 'name-is-a-column-elsewhere', 'typedef-case') or not q:
             obs.append(ob_layout(name, opts, raw=False))
     obs.append(ob_layout('quoted', dict(form='quoted', nsym=1), raw=False, binary=True))
     if not q:
@@ -206,6 +218,9 @@ def replay(rec):
         opts[k] = {'None': None, 'True': True, 'False': False}.get(v, v)
         if k in ('nsym', 'comment', 'cont', 'interleave', 'value_sym') and opts[k] is not None:
             opts[k] = int(v)
+        if k == 'names' and opts[k] is not None:
+            import ast
+            opts[k] = ast.literal_eval(v)
     saved = me.sym_chars
 
     def conc_chars(ctx, name, n, exclude=''):
@@ -240,10 +255,16 @@ def _concrete_doc(opts, inp):
             return int(inp.get('choice_' + name, 0))
     o = dict(opts)
     case = o.pop('case', None)
-    text, expected = me.doc(Ctx(), dict(o, case=None))
+    tdc = o.pop('typedef_case', False)
+    text, expected = me.doc(Ctx(), dict(o, case=None, typedef_case=False))
     text = ''.join(SStr.lift(text).items) if not isinstance(text, str) else text
+    tname = 'TAB' if not o.get('sub_names') else 'AB'
+    if o.get('names'):
+        tname = o['names'][0]
+    if tdc:
+        new = [tname.upper(), tname.lower(), tname.capitalize(), tname[0].lower() + tname[1:].upper()][int(inp.get('choice_tdcase', 0))]
+        text = text.replace('} %s;' % tname, '} %s;' % new, 1)
     if case:
-        tname = 'TAB' if not o.get('sub_names') else 'AB'
         new = ''.join(ch.upper() if inp.get('upper%d' % i, True) else ch.lower() for i, ch in enumerate(tname))
         # first data row of the first table starts with the table name at the beginning of a line
         import re as _re
